@@ -335,6 +335,10 @@ def check(ctx):
             for m, t, v, s, k in attr_stores(prog, R.bads, "x0"):
                 if m is not init:
                     good = False
+                if isinstance(v, ast.Name):
+                    from .common import deref_expr as _dx1
+
+                    v = _dx1(prog, m, v)  # the draw kept in a local first
                 if isinstance(v, ast.Call) and call_name(v) == "np.random.uniform":
                     lo, hi = kw(v, "low") or (v.args[0] if v.args else None), kw(v, "high") or (v.args[1] if len(v.args) > 1 else None)
                     good = good and canon(lo) == "self.plausible_lower_bounds" and canon(hi) == "self.plausible_upper_bounds" and val_ok.get(3, False) and val_ok.get(4, False)
